@@ -12,6 +12,27 @@ CLAIMED = {
         "design_ref": "DESIGN.md 4 U-term",
     },
 }
+CLAIMED.update({
+    "C06": {
+        "text": "Proof (per function, all inputs, unbounded via loop contracts): the three-width reference counters are exact across "
+                "every width change and resize (U-cnt, real arrays.h/arrays.cc), and the link/unlink/cache/uncache state machine "
+                "of node_headers changes exactly one count by one, deletes a node exactly when its last reference goes and "
+                "recycles a handle only when it is deleted and uncached (U-hdr, real node_headers.h/.cc; the recycling gate is the "
+                "callee precondition every caller must discharge). Partial: operations' link balance and leak freedom are history "
+                "properties outside any function contract and are listed as unverified.",
+        "note": COMMON_NOTE + " U-hdr uses the array accessors through abstract contracts (ghost model arrays) that restate the "
+                "U-cnt contracts; that renaming is not machine-checked. forest::deleteNode is an assumed stub there.",
+        "design_ref": "DESIGN.md 4 U-cnt, U-hdr",
+    },
+    "C07": {
+        "text": "Proof of the compute-table side of node lifetime: cache counts change by exactly one per cacheNode/uncacheNode, "
+                "the last uncache of a dead handle recycles it, of an unreferenced live node reclaims it, and no caller can "
+                "recycle a handle whose cache count is non-zero (gating lemma = named precondition of recycleNodeHandle checked "
+                "at every call site). Partial: the compute-table templates themselves (ct_styles.cc) are out of reach.",
+        "note": COMMON_NOTE,
+        "design_ref": "DESIGN.md 4 U-cnt, U-hdr",
+    },
+})
 NA_HEAP = ("no function contract within CBMC's reach can express it: the content is a recursion over the decision-diagram heap "
            "(needs an inductive 'node p denotes f' predicate and induction), in template/virtual C++ the front end rejects")
 NOT_APPLICABLE = {
@@ -20,8 +41,6 @@ NOT_APPLICABLE = {
     "C03": "work in progress in this session",
     "C04": "set algebra: " + NA_HEAP,
     "C05": "work in progress in this session",
-    "C06": "work in progress in this session",
-    "C07": "work in progress in this session",
     "C08": "reachability fixed points: " + NA_HEAP,
     "C09": "image / vector-matrix products: " + NA_HEAP,
     "C10": "cross-forest copy: " + NA_HEAP + "; the scalar conversions are covered under C19",
